@@ -88,8 +88,10 @@ def make_check(U, quick):
             wit = {"recipe": recipe, "show": key, "config": name, "F": repr(obj)[:800]}
             try:
                 D = obj
+                R = obj  # the same derivative as a raw node: the model's definition, independent of construction-time shortcuts
                 for vn in chain:
                     D = ufl.diff(D, U.t[vn])
+                    R = raw_variable_derivative(R, U.t[vn])
                 expected_shape = tuple(obj.ufl_shape)
                 for vn in chain:
                     expected_shape += tuple(U.t[vn].ufl_shape)
@@ -108,13 +110,23 @@ def make_check(U, quick):
                 )
                 ok = False
                 continue
-            good = P.check_pass(name, D, ed, envs, part, PID, key, wit, same_type=False)
+            good = P.check_pass(name, R, ed, envs, part, PID, key, wit, same_type=False)
             ok &= good
             if good and (set(chain) & used):
                 part.count("nontrivial_pairs")
         return None if ok else "VIOLATION"
 
     return diff_check
+
+
+def raw_variable_derivative(f, v):
+    """VariableDerivative(f, v) without the constructor's 'trivially independent' shortcut."""
+    from ufl.classes import VariableDerivative
+    from ufl.differentiation import Derivative
+
+    o = Derivative.__new__(VariableDerivative)
+    VariableDerivative.__init__(o, f, v)
+    return o
 
 
 def L_terms(r):
